@@ -31,6 +31,39 @@ def run(ctx, crate):
     rule_tabrewriter(ctx, crate)
     rule_tab_sources_covered(ctx, crate)
     rule_getters(ctx, crate)
+    rule_width_read_and_store_atomic(ctx, crate)
+
+
+BAR_LOCK = (r"progress_bar::ProgressBar::state", r"std::sync::Mutex::<T>::lock")
+
+
+def rule_width_read_and_store_atomic(ctx, crate, rule="R-TAB-WIDTH-READ-STORE-ATOMIC"):
+    """"Changing the tab width ... in any order re-expands all of them consistently": `set_tab_width` re-expands the texts that are
+    stored at the moment it runs, so a text that is expanded with the width read from the bar must be stored under the *same*
+    acquisition of the bar's lock. If the width is read under one acquisition and the text stored under another, a width change
+    in between is never applied to that text (seed C16k: set_message with a `shorter critical section`). For every store of a
+    message/prefix whose value depends on the stored tab width: the lock acquisitions its value depends on are the one the store
+    goes through."""
+    cfg = crate.config
+    n = 0
+    for b in K.lib_bodies(crate):
+        for i, j, st in b.assigns():
+            fs = place_fields(st["lhs"])
+            if not fs or fs[-1][0] != "state::ProgressState" or fs[-1][2] not in ("message", "prefix"):
+                continue
+            vsl = b.slice_rv(i, st)
+            if not vsl.has_field("tab_width"):
+                continue
+            n += 1
+            vl = {k.bb for k in vsl.calls if k.matches(*BAR_LOCK)}
+            psl = b.slice({"k": "copy", "place": {"l": st["lhs"]["l"], "p": []}}, at=i)
+            pl = {k.bb for k in psl.calls if k.matches(*BAR_LOCK)}
+            ok = vl <= pl and len(pl) <= 1
+            ctx.check(ok, rule, "same-acquisition:%s:%s" % (K.meth(K.owner_fn(crate, b)), fs[-1][2]), b.name, "%s:%d" % (b.file, st.get("line", 0)),
+                      "the tab width a text is expanded with is read under the lock acquisition through which the text is stored",
+                      "%s reads the tab width under one acquisition of the bar's lock and stores the expanded %s under another: a set_tab_width() in between is never "
+                      "applied to it (the text keeps the old width until the width changes again)" % (K.meth(K.owner_fn(crate, b)), fs[-1][2]), cfg)
+    ctx.floor(rule, n, 4, cfg, "stores of message/prefix expanded with the bar's tab width")
 
 
 def in_own_impl(b, crate):
